@@ -114,6 +114,7 @@ func (c C19) Run(t *tape.Tape, opt core.RunOpt) (res core.Result) {
 			if t.Bool(1, 4) {
 				sb.Wrap = 1 + t.Draw(3)
 			}
+			sb.Companion = t.Bool(1, 8)
 			nextSid++
 			if t.Bool(1, 3) {
 				sb.FailFrom = 1 + t.Draw(3)
@@ -123,6 +124,16 @@ func (c C19) Run(t *tape.Tape, opt core.RunOpt) (res core.Result) {
 			out := w.Subscribe(sb.ID)
 			d := fmt.Sprintf("subscribe(sub %d topic=%q sel=%s failFrom=%d dropped=%v) -> %s", sb.ID, sb.Topic, workload.SubSelections[sb.SelIndex].Sel, sb.FailFrom, sb.Dropped, out)
 			hist = append(hist, d)
+			if sb.Companion {
+				// the request has a second root field whose resolver refuses: it
+				// fails as a whole and registers nobody
+				if !strings.Contains(out, `"errors"`) {
+					fail("subscribe_failed", "subscription request with a refused second field returned %s (no error)", out)
+					return
+				}
+				res.Count("probe_subscription_request_with_refused_field", 1)
+				break
+			}
 			if out != `{"data":null}` {
 				fail("subscribe_failed", "subscription request of subscriber %d returned %s", sb.ID, out)
 				return
@@ -277,6 +288,16 @@ func (c C19) Run(t *tape.Tape, opt core.RunOpt) (res core.Result) {
 				return
 			}
 			live = rest
+		}
+		// subscribers keep the value of their last delivery: it stays what it was
+		for _, sid := range live {
+			w.Subs[sid].CheckKept()
+		}
+		for _, e := range env.log {
+			if e.Kind == "ValueChanged" {
+				fail("delivered_message_changed_later", "the message a subscriber was sent changed after the delivery: subscriber %s", e.Detail)
+				return
+			}
 		}
 		for sid, n := range cleaned {
 			// once per removed registry entry (a subscriber object can stand behind
